@@ -23,7 +23,7 @@ def _replay(prop, path):
         return 2
     rep = Report(prop, 'quick')
     ctx = payload['vector']
-    if isinstance(ctx.get('vector'), dict) and ctx['vector'].get('mode') in ('exlit', 'attr', 'docref', 'annot'):
+    if isinstance(ctx.get('vector'), dict) and ctx['vector'].get('mode') in ('exlit', 'attr', 'docref', 'annot', 'anndef', 'badtype'):
         from litcheck import LitJudge
         j = LitJudge({'prop': prop})
         j.on_vec('VEC', ctx['vector'])
@@ -54,7 +54,7 @@ def _replay(prop, path):
 
 
 LIT_INVS = ['Total', 'DeclaredDefaultsFit', 'NullIffNullable', 'ForeignNeedsImport']
-LIT_SHARDS = {'exlit': 4, 'attr': 2, 'docref': 16, 'annot': 8}
+LIT_SHARDS = {'exlit': 4, 'attr': 2, 'docref': 16, 'annot': 8, 'anndef': 1, 'badtype': 1}
 
 
 def lit_stage(rep, prop, modes):
@@ -99,7 +99,7 @@ def _run(prop, tier, replay, text, quick_frac):
                                                 'shards': [j[1] for j in mine], 'of': mine[0][2]})
         rep.add_judged(agg)
     if prop == 'C01':
-        lit_stage(rep, 'C01', ('exlit', 'attr', 'docref', 'annot'))
+        lit_stage(rep, 'C01', ('exlit', 'attr', 'docref', 'annot', 'anndef', 'badtype'))
     if prop == 'C11':
         # layout: comments, blank lines, trailing whitespace/comments, broken parenthesised lists.  StoneLex proves
         # (TLC, LayoutInvariance) that the line machine OpLex ignores them; here the real Lexer is bound to OpLex.
@@ -115,7 +115,7 @@ def _run(prop, tier, replay, text, quick_frac):
         rep.add_judged(agg)
         # file order for the value-against-type cases (cross-namespace example references, imported annotations, doc
         # references into imported namespaces, route attribute schemas): every StoneLitMC case in both file orders
-        lit_stage(rep, 'C11', ('exlit', 'attr', 'annot') if tier == 'quick' else ('exlit', 'attr', 'annot', 'docref'))
+        lit_stage(rep, 'C11', ('exlit', 'attr', 'annot', 'anndef', 'badtype') if tier == 'quick' else ('exlit', 'attr', 'annot', 'anndef', 'badtype', 'docref'))
         # delivery: the concatenated files on standard input must mean what the files mean (StoneStdin, SplitRestores)
         consts = {'MaxFiles': 2, 'MaxBody': 1} if tier == 'quick' else {'MaxFiles': 2, 'MaxBody': 2}
         res = run_shards('StoneStdin',
